@@ -203,6 +203,7 @@ func checkSerialisationDeterminism(p *core.Program, r *core.Report) {
 		}
 	}
 	r.Analysed["pooled_objects_in_serialisation"] = nPool
+	r.Analysed["error_returning_functions_checked"] = checkErrorsNotSwallowedIn(p, r, bp7)
 	sort.Strings(names)
 	r.Analysed["serialisation_call_closure"] = names
 	r.OK("determinism/closure", "serialising a bundle is a deterministic function of the bundle: no map iteration, clock, randomness or concurrency is reachable from Bundle.MarshalCbor (except the two exempt blocks)", p.Pos(root.Pos()), fmt.Sprintf("%d functions reachable, %d exempt map ranges", len(reach), nExempt))
